@@ -314,6 +314,25 @@ func runC03(seed int64, n int, dir string, tier string) *Report {
 			g.RenameSome(d.NodeList, append(append([]string{}, gen.KeptRefLike...), gen.KeptProtobomRefLike...), 1+g.Int(3))
 		}
 		docs = append(docs, src{fmt.Sprintf("generated-%d", i), d})
+		if i%4 == 0 {
+			// one edge message per relationship, sources interleaved (what parsing SPDX or a union leaves): a
+			// root containing every node, plus 5..10 single-target dependency edges in random order
+			dd := sbom.NewDocument()
+			dd.Metadata.Id = "urn:uuid:interleaved"
+			ids := []string{"app", "liba", "libb", "libc", "libd"}
+			for _, id := range ids {
+				dd.NodeList.Nodes = append(dd.NodeList.Nodes, &sbom.Node{Id: id, Name: id, Version: "1", Type: sbom.Node_PACKAGE})
+			}
+			dd.NodeList.RootElements = []string{"app"}
+			dd.NodeList.Edges = append(dd.NodeList.Edges, &sbom.Edge{Type: sbom.Edge_contains, From: "app", To: ids[1:]})
+			for k := 5 + g.Int(6); k > 0; k-- {
+				from, to := gen.Pick(g, ids), gen.Pick(g, ids)
+				if from != to {
+					dd.NodeList.Edges = append(dd.NodeList.Edges, &sbom.Edge{Type: sbom.Edge_dependsOn, From: from, To: []string{to}})
+				}
+			}
+			docs = append(docs, src{fmt.Sprintf("generated-interleaved-%d", i), dd})
+		}
 	}
 	seeds := seedDocuments(g, tier)
 	names := make([]string, 0, len(seeds))
